@@ -245,6 +245,7 @@ static void gen_form(const Form& f, int mode, bool thorough, FILE* out) {
       // v4/v5 (thorough) = v0/v1 with other immediates / decorations
       if ((v == 2 || v == 3) && nfree < 2 && !(v == 2 && nfree == 1)) continue;
       if (v == 3 && nfree < 3) continue;
+      if (mode == 32 && !thorough && (v == 1 || v == 3)) continue;        // quick tier, 32-bit mode: distinct and all-same assignments only
       g_dim = "base";
       one(v, false, 0, -1, -1, 0);
     }
@@ -264,7 +265,7 @@ static void gen_form(const Form& f, int mode, bool thorough, FILE* out) {
           g_dim = "imm";
           for (size_t q = 0; q < ni + 1; q++) {
             // the full list for maskable (EVEX) forms in 64-bit mode; elsewhere 0 / 0xFF / -1 and the nibble patterns 0x0F 0xF0 0xAA
-            bool shortList = !maskable || mode == 32;
+            bool shortList = !maskable || mode == 32 || (!thorough && (mk == 2 || assign == 1));
             if (shortList && !(q < 3 || (mode == 64 && (q == 8 || q == 9 || q == 11)) || (maskable && q == 11))) continue;
             if (mode == 32 && assign == 1) continue;
             int64_t val = q < ni ? imms[q] : int64_t(g_rng->next() & 0xFF);
@@ -275,10 +276,13 @@ static void gen_form(const Form& f, int mode, bool thorough, FILE* out) {
     }
     // ---- dimension: boundary register ids in every vector operand position, one at a time (others low): 7|8 REX/VEX.R, 15|16 the
     //      first id that needs EVEX, 17, 31
-    if (mode == 64 && (f.pk == "V" || f.pk == "E") && (nvecfree > 0 || hasVsib) && (thorough || cix == 0 || hasVsib || nmem == 0)) {
+    if (mode == 64 && (f.pk == "V" || f.pk == "E") && (nvecfree > 0 || hasVsib) && (thorough || hasVsib || nmem == 0)) {
       static const int bids[] = {0, 7, 8, 15, 16, 17, 31};
       for (int pos = 0; pos < nvecfree + (hasVsib ? 1 : 0); pos++)
-        for (int bid : bids) { g_dim = "bid"; one(0, false, 0, 0, pos < nvecfree ? pos : 100, bid); }
+        for (int bid : bids) {
+          if (!thorough && pos > 0 && bid < 15) continue;       // quick tier: 0 / 7 / 8 in the first vector position only, 15 | 16 | 17 | 31 in every position
+          g_dim = "bid"; one(0, false, 0, 0, pos < nvecfree ? pos : 100, bid);
+        }
     }
   }
 }
